@@ -156,7 +156,25 @@ def _decl_name(decl: str) -> str:
     return body.split()[0]
 
 
+import re as _re
+
+_SIMPLE_SYMBOL = _re.compile(r"^[A-Za-z~!@$%^&*_\-+=<>.?/][A-Za-z0-9~!@$%^&*_\-+=<>.?/]*$")
+
+
+def _check_symbols(decls: List[str]):
+    for d in decls:
+        if d.startswith("(declare-const "):
+            n = _decl_name(d)
+            if not (n.startswith("|") and n.endswith("|") and "|" not in n[1:-1]) and not _SIMPLE_SYMBOL.match(n):
+                raise smt.SolverError(f"not a legal SMT-LIB symbol: {n!r}")
+
+
 def build_script(world: World, obligations: List[Obligation], solver: str, timeout_ms: int, with_models: bool = False) -> str:
+    seen_decl_lists = set()
+    for ob in obligations:
+        if id(ob.decls) not in seen_decl_lists:
+            seen_decl_lists.add(id(ob.decls))
+            _check_symbols(ob.decls)
     lines = [smt.prelude(timeout_ms, solver)]
     lines.extend(world.global_decls)
     for ax in world.global_axioms:
